@@ -203,6 +203,7 @@ def finish(mod, prop, tier, seed, records, shard_failures, planned, wall, replay
     samples = []
     violations = []
     known_seen = {}
+    sub_total = sub_inconc = 0
     for r in records:
         v = r.get('verdict', 'inconclusive')
         verdicts[v] = verdicts.get(v, 0) + 1
@@ -217,6 +218,10 @@ def finish(mod, prop, tier, seed, records, shard_failures, planned, wall, replay
         if v == 'inconclusive':
             w = r.get('why', '?')
             inconc_why[w] = inconc_why.get(w, 0) + 1
+        sub_total += int(r.get('sub_total', 1))
+        sub_inconc += int(r.get('sub_inconclusive', 1 if v == 'inconclusive' else 0))
+        for w, c in (r.get('sub_inconclusive_why') or {}).items():
+            inconc_why[w] = inconc_why.get(w, 0) + c
         if v == 'violated':
             # a batch case may carry several violations (one per mechanism key)
             subs = r.get('violations') or [r]
@@ -270,8 +275,8 @@ def finish(mod, prop, tier, seed, records, shard_failures, planned, wall, replay
                                                                  harness_errors[0].get('trace', '')[-600:])
         elif hits < min_hits:
             inconclusive_run = 'monitor evaluations %d < required %d' % (hits, min_hits)
-        elif verdicts['inconclusive'] > max_inconc * max(1, len(records)):
-            inconclusive_run = 'inconclusive cases %d of %d: %r' % (verdicts['inconclusive'], len(records), inconc_why)
+        elif sub_inconc > max_inconc * max(1, sub_total):
+            inconclusive_run = 'inconclusive cases %d of %d: %r' % (sub_inconc, sub_total, inconc_why)
 
     evidence = {
         'property_id': prop,
@@ -286,6 +291,8 @@ def finish(mod, prop, tier, seed, records, shard_failures, planned, wall, replay
             'monitor_evaluations': hits,
             'verdicts': verdicts,
             'inconclusive_reasons': inconc_why,
+            'subcases': sub_total,
+            'subcases_inconclusive': sub_inconc,
             'features_observed': dict(sorted(feats.items())),
             'planned_cases': planned,
             'known_findings_seen': {k: len(v) for k, v in known_seen.items()},
@@ -325,6 +332,25 @@ def finish(mod, prop, tier, seed, records, shard_failures, planned, wall, replay
     return 0
 
 
+class sub_alarm:
+    """Per-sub-case watchdog inside a batch case: `with sub_alarm(5): ...` raises CaseTimeout in the body;
+    the enclosing per-case alarm is re-armed afterwards."""
+
+    def __init__(self, seconds):
+        self.seconds = int(seconds)
+
+    def __enter__(self):
+        self.t0 = time.time()
+        self.prev = signal.alarm(self.seconds)
+        return self
+
+    def __exit__(self, *exc):
+        signal.alarm(0)
+        if self.prev:
+            signal.alarm(max(1, int(self.prev - (time.time() - self.t0))))
+        return False
+
+
 class Batch:
     """Accumulator for a case that consists of many sub-cases (keeps going after a violation so that one
     mechanism does not mask another; keeps the first witness per mechanism key)."""
@@ -336,6 +362,8 @@ class Batch:
         self.sample = None
         self.viol = {}
         self.counts = {}
+        self.total = 0
+        self.inconc = {}
 
     def feat(self, f, n=1):
         if isinstance(f, dict):
@@ -355,8 +383,12 @@ class Batch:
         if key not in self.viol:
             self.viol[key] = {'key': key, 'what': what, 'witness': witness}
 
+    def inconclusive(self, why):
+        self.inconc[why] = self.inconc.get(why, 0) + 1
+
     def result(self):
-        rec = {'hits': self.hits, 'features': self.feats, 'nontrivial': bool(self.nth),
+        rec = {'hits': self.hits, 'sub_total': max(self.total, 1), 'sub_inconclusive': sum(self.inconc.values()),
+               'sub_inconclusive_why': self.inconc, 'features': self.feats, 'nontrivial': bool(self.nth),
                'nt_hashes': sorted(self.nth), 'sample': self.sample}
         if self.viol:
             rec['verdict'] = 'violated'
